@@ -438,8 +438,11 @@ ALWAYS_INLINE = {
 
 
 def _inline_helpers(repo, ref_funcs: set[str], log: dict) -> None:
-    new_helpers = {q: fi for q, fi in repo.functions.items() if (q not in ref_funcs or q in ALWAYS_INLINE) and fi.name.startswith('_') and not fi.name.startswith('__')
-                   and fi.kind in ('function', 'method', 'staticmethod', 'classmethod')}
+    new_helpers = {q: fi for q, fi in repo.functions.items() if (q not in ref_funcs or q in ALWAYS_INLINE) and not fi.name.startswith('__')
+                   and fi.kind in ('function', 'method', 'staticmethod', 'classmethod')
+                   and all(_u(d_) in ('staticmethod', 'classmethod') for d_ in fi.node.decorator_list)       # a decorated helper is not its body
+                   and (fi.name.startswith('_') or (fi.kind in ('staticmethod', 'classmethod') and fi.cls is not None
+                                                    and not any(fi.name in c.methods for c in fi.cls.all_subclasses())))}
     if not new_helpers:
         return
     for _round in range(6):
@@ -576,6 +579,23 @@ def _resolve_helper(repo, fi, call: ast.Call, helpers):
                     if recv in ('self', 'cls'):
                         return h, True
                     return (h, True) if h.kind == 'classmethod' else (None, False)
+    if isinstance(f, ast.Attribute) and isinstance(f.value, ast.Name) and f.value.id not in ('self', 'cls'):
+        # `SomeClass.factory(...)` on a class named outright: a class or static method is resolved by the name alone
+        try:
+            target = repo.resolve_name(fi.module, f.value.id)
+        except Exception:
+            target = None
+        if hasattr(target, 'mro') and hasattr(target, 'qualname'):
+            for c in target.mro():
+                h = helpers.get(f'{c.qualname}.{f.attr}')
+                if h is not None:
+                    if h.kind == 'staticmethod':
+                        return h, False
+                    if h.kind == 'classmethod':
+                        return h, True
+                    return None, False
+                if f.attr in c.methods:
+                    return None, False
     return None, False
 
 
@@ -2545,11 +2565,46 @@ def _new_default_params(repo, fi, ref_bindings: list[str]) -> dict:
         if any(k.arg is None for k in c.keywords) or any(isinstance(x, ast.Starred) for x in c.args):
             return {}
         for k in c.keywords:
+            if k.arg in new and _u(k.value) == _u(new[k.arg]):
+                continue            # the default itself, spelled out
             new.pop(k.arg, None)
         for p in list(new):
-            if p in pos and len(c.args) > pos[p]:
+            if p in pos and len(c.args) > pos[p] and _u(c.args[pos[p]]) != _u(new[p]):
                 new.pop(p, None)
     return new
+
+
+def _settle_default_params(repo, ref_funcs, log) -> None:
+    """New defaulted parameters that are only ever handed on from another new defaulted parameter nobody passes: settle them in
+    rounds, and drop the keyword that spells out the default at the call."""
+    for _round in range(3):
+        changed = False
+        for q, fi in repo.functions.items():
+            if q not in ref_funcs:
+                continue
+            nd = _new_default_params(repo, fi, ref_funcs[q].get('bindings', []))
+            stored = {n.id for n in ast.walk(fi.node) if isinstance(n, ast.Name) and isinstance(n.ctx, ast.Store)}
+            nd = {p_: d_ for p_, d_ in nd.items() if p_ not in stored}
+            used = {n.id for st in fi.node.body for n in ast.walk(st) if isinstance(n, ast.Name)}
+            if nd and used & set(nd):
+                wrapper_ = ast.Module(body=fi.node.body, type_ignores=[])
+                wrapper_ = _ConstFold().visit(_Subst(nd).visit(wrapper_))
+                fi.node.body = _fold_if_statements(wrapper_.body) or [ast.Pass()]
+                ast.fix_missing_locations(fi.node)
+                log.setdefault(q, []).append(f'new parameters no caller passes read as their defaults: {", ".join(sorted(nd))}')
+                changed = True
+            if nd:
+                for m in repo.modules.values():
+                    for c in ast.walk(m.tree):
+                        if isinstance(c, ast.Call) and c.keywords:
+                            fname = c.func.attr if isinstance(c.func, ast.Attribute) else c.func.id if isinstance(c.func, ast.Name) else None
+                            if fname == fi.name or (fi.name == '__init__' and fi.cls is not None and fname in (fi.cls.name, '__init__')):
+                                keep = [k for k in c.keywords if not (k.arg in nd and _u(k.value) == _u(nd[k.arg]))]
+                                if len(keep) != len(c.keywords):
+                                    c.keywords = keep
+                                    changed = True
+        if not changed:
+            break
 
 
 # ------------------------------------------------------------------------------------------------ (v) lookups in new constant dictionaries
@@ -2877,6 +2932,10 @@ def normalise(repo) -> dict:
                     ast.fix_missing_locations(fi.node)
             except Exception as e:
                 log.setdefault('#errors', []).append(f'{q}: continuation sinking: {type(e).__name__}: {e}')
+    try:
+        _settle_default_params(repo, ref_funcs, log)
+    except Exception as e:
+        log.setdefault('#errors', []).append(f'default parameters: {type(e).__name__}: {e}')
     for q, fi in repo.functions.items():
         key = q if q in ref_funcs else None
         known_locals = set(ref_funcs[key]['locals']) if key else None
